@@ -2049,3 +2049,70 @@ def _le_generic(ex, c, a, dt):
     if type(x) is Opaque or type(y) is Opaque:
         return False            # log level comparisons: logging is off in the model
     return _ord_ops(ex, c, a, dt)
+
+
+# ---- byte-symbolic ASCII strings (bounded length, every byte a symbolic 8-bit value below 128) ---------------------------
+class SymBytes:
+    """a str of known length whose bytes are symbolic ASCII values (ints or z3 BitVec(8))"""
+    def __init__(self, bs):
+        self.bs = list(bs)
+
+def _symbytes(v):
+    d = deref(v)
+    return d if isinstance(d, SymBytes) else None
+
+def _b8(x):
+    return z3.BitVecVal(x, 8) if isinstance(x, int) else x
+
+_lower_plain = NATIVES[('str', 'to_lowercase')]
+@native(('str', 'to_lowercase'), ('str', 'to_uppercase'), ('str', 'to_ascii_lowercase'))
+def _lower_sym(ex, c, a, dt):
+    sb = _symbytes(a[0])
+    if sb is None:
+        return _lower_plain(ex, c, a, dt)
+    out = []
+    for b in sb.bs:
+        b = _b8(b)
+        if 'lower' in c.method:
+            out.append(z3.simplify(z3.If(z3.And(z3.UGE(b, 65), z3.ULE(b, 90)), b + 32, b)))
+        else:
+            out.append(z3.simplify(z3.If(z3.And(z3.UGE(b, 97), z3.ULE(b, 122)), b - 32, b)))
+    return SymBytes(out)
+
+_starts_plain = NATIVES[('str', 'starts_with')]
+@native(('str', 'starts_with'), ('str', 'ends_with'), ('str', 'contains'))
+def _starts_sym(ex, c, a, dt):
+    sb = _symbytes(a[0])
+    if sb is None:
+        return _starts_plain(ex, c, a, dt)
+    p = deref(a[1])
+    if isinstance(p, int): p = chr(p)
+    if not isinstance(p, str):
+        raise Unsupported('pattern of a byte-symbolic string must be concrete')
+    pb = p.encode()
+    n, m = len(sb.bs), len(pb)
+    if m > n:
+        return False
+    def at(off):
+        return z3.And([_b8(sb.bs[off + i]) == pb[i] for i in range(m)]) if m else z3.BoolVal(True)
+    if c.method == 'starts_with': r = at(0)
+    elif c.method == 'ends_with': r = at(n - m)
+    else: r = z3.Or([at(o) for o in range(n - m + 1)])
+    r = z3.simplify(r)
+    return True if z3.is_true(r) else False if z3.is_false(r) else r
+
+_len_plain2 = NATIVES[('str', 'len')]
+@native(('str', 'len'), ('String', 'len'))
+def _len_sym(ex, c, a, dt):
+    sb = _symbytes(a[0])
+    return len(sb.bs) if sb is not None else _len_plain2(ex, c, a, dt)
+
+_is_empty_plain = NATIVES.get(('str', 'is_empty'))
+@native(('str', 'is_empty'), ('String', 'is_empty'))
+def _is_empty_sym(ex, c, a, dt):
+    sb = _symbytes(a[0])
+    if sb is not None:
+        return len(sb.bs) == 0
+    if _is_empty_plain is None:
+        return len(as_str(a[0])) == 0
+    return _is_empty_plain(ex, c, a, dt)
